@@ -248,4 +248,182 @@ theorem ics20_listAllowed_complete {m : Ics20.InstMsg} {w0 : Ics20.World} (hi : 
       = sortedEntries strLt (ics20Run w0 ops).st.allow :=
   ics20_listAllowed_loop (Ics20.run_nodup ops (Ics20.instantiate_nodup hi)) limit hl hf
 
+/-! ## cw3 core (shared by cw3-fixed and cw3-flex): proposals forward / reverse, votes -/
+
+/-- Every stored proposal has a status at block `blk` (`current_status` does not fail). -/
+def StatusTotal (c : Cw3Core.Core) (blk : Block) : Prop :=
+  ∀ id p, c.proposals.get? id = some p → ∃ st, p.currentStatus blk = .ok st
+
+theorem statusTotal_of_mem {c : Cw3Core.Core} {blk : Block} (hn : AMap.NodupKeys c.proposals)
+    (hv : StatusTotal c blk) {x : Nat × Cw3Core.Proposal} (hx : x ∈ c.proposals) :
+    ∃ st, x.2.currentStatus blk = .ok st :=
+  hv x.1 x.2 ((AMap.get?_eq_some_iff hn).mpr hx)
+
+/-- `ListProposals` succeeds exactly when every proposal on the page has a status at the query block, and then
+shows one view per entry of the page (in particular at most `min (limit or 10) 30`). -/
+theorem core_listProposals_page_len (c : Cw3Core.Core) (blk : Block) (after limit : Option Nat) :
+    (okItems (Cw3Core.listProposals c blk after limit)).length ≤ effLimit limit ∧
+    ((Cw3Core.listProposals c blk after limit).isOk = true ↔
+      ∀ x ∈ page natLt (sortedEntries natLt c.proposals) after limit, ∃ st, x.2.currentStatus blk = .ok st) := by
+  unfold Cw3Core.listProposals
+  cases h : Cw3Core.viewAll blk (page natLt (sortedEntries natLt c.proposals) after limit) with
+  | ok vs =>
+    refine ⟨?_, fun _ => (Cw3Core.viewAll_ok_all h).1, fun _ => rfl⟩
+    simp only [okItems_ok, Cw3Core.viewAll_length h]
+    exact page_length_le _ _ _ _
+  | error e =>
+    refine ⟨by simp, fun hok => (by cases hok), fun hall => ?_⟩
+    rw [Cw3Core.viewAll_eq_map hall] at h; cases h
+
+/-- The same for `ReverseProposals`. -/
+theorem core_reverseProposals_page_len (c : Cw3Core.Core) (blk : Block) (before limit : Option Nat) :
+    (okItems (Cw3Core.reverseProposals c blk before limit)).length ≤ effLimit limit ∧
+    ((Cw3Core.reverseProposals c blk before limit).isOk = true ↔
+      ∀ x ∈ Cw3Core.pageDesc natLt (sortedEntries natLt c.proposals) before limit,
+        ∃ st, x.2.currentStatus blk = .ok st) := by
+  unfold Cw3Core.reverseProposals
+  cases h : Cw3Core.viewAll blk (Cw3Core.pageDesc natLt (sortedEntries natLt c.proposals) before limit) with
+  | ok vs =>
+    refine ⟨?_, fun _ => (Cw3Core.viewAll_ok_all h).1, fun _ => rfl⟩
+    simp only [okItems_ok, Cw3Core.viewAll_length h]
+    exact Cw3Core.pageDesc_length_le _ _ _ _
+  | error e =>
+    refine ⟨by simp, fun hok => (by cases hok), fun hall => ?_⟩
+    rw [Cw3Core.viewAll_eq_map hall] at h; cases h
+
+/-- With distinct ids and computable statuses `ListProposals` is the page of the ascending listing, viewed. -/
+theorem core_listProposals_eq {c : Cw3Core.Core} {blk : Block} (hn : AMap.NodupKeys c.proposals)
+    (hv : StatusTotal c blk) (after limit : Option Nat) :
+    Cw3Core.listProposals c blk after limit
+      = .ok ((page natLt (sortedEntries natLt c.proposals) after limit).map (Cw3Core.viewD blk)) :=
+  Cw3Core.viewAll_eq_map fun _ hx =>
+    statusTotal_of_mem hn hv (mem_sortedEntries.mp ((page_sublist natLt _ after limit).subset hx))
+
+/-- With distinct ids and computable statuses `ReverseProposals` is the page of the descending listing, viewed. -/
+theorem core_reverseProposals_eq {c : Cw3Core.Core} {blk : Block} (hn : AMap.NodupKeys c.proposals)
+    (hv : StatusTotal c blk) (before limit : Option Nat) :
+    Cw3Core.reverseProposals c blk before limit
+      = .ok ((pageDesc natLt (sortedEntriesDesc natLt c.proposals) before limit).map (Cw3Core.viewD blk)) := by
+  unfold Cw3Core.reverseProposals
+  rw [Cw3Core.pageDesc_eq strictTotal_natLt hn]
+  exact Cw3Core.viewAll_eq_map fun _ hx =>
+    statusTotal_of_mem hn hv (mem_sortedEntries.mp ((page_sublist _ _ before limit).subset hx))
+
+/-- Completeness of `ListProposals` (state level): the loop (cursor = id of the last view) returns exactly the
+views of all stored proposals in ascending id order. -/
+theorem core_listProposals_loop {c : Cw3Core.Core} {blk : Block} (hn : AMap.NodupKeys c.proposals)
+    (hv : StatusTotal c blk) (limit : Option Nat) (hl : limit ≠ some 0) {fuel : Nat}
+    (hf : c.proposals.length + 1 ≤ fuel) :
+    Cw3Core.viewAll blk (sortedEntries natLt c.proposals)
+      = .ok (fetchLoop (fun cur => okItems (Cw3Core.listProposals c blk cur limit)) (·.id) none fuel) := by
+  rw [listing_complete strictTotal_natLt hn hl (f := Cw3Core.viewD blk) (key := (·.id))
+    (fun cur => by rw [core_listProposals_eq hn hv]; rfl) (fun _ => rfl) hf]
+  exact Cw3Core.viewAll_eq_map fun _ hx => statusTotal_of_mem hn hv (mem_sortedEntries.mp hx)
+
+/-- Completeness of `ReverseProposals` (state level): the loop (`start_before` = id of the last view) returns
+exactly the views of all stored proposals in descending id order. -/
+theorem core_reverseProposals_loop {c : Cw3Core.Core} {blk : Block} (hn : AMap.NodupKeys c.proposals)
+    (hv : StatusTotal c blk) (limit : Option Nat) (hl : limit ≠ some 0) {fuel : Nat}
+    (hf : c.proposals.length + 1 ≤ fuel) :
+    Cw3Core.viewAll blk (sortedEntries natLt c.proposals).reverse
+      = .ok (fetchLoop (fun cur => okItems (Cw3Core.reverseProposals c blk cur limit)) (·.id) none fuel) := by
+  have h := listing_complete_desc strictTotal_natLt hn hl (f := Cw3Core.viewD blk) (key := (·.id))
+    (q := fun cur => okItems (Cw3Core.reverseProposals c blk cur limit))
+    (fun cur => by rw [core_reverseProposals_eq hn hv]; rfl) (fun _ => rfl) hf
+  rw [h.1, h.2]
+  exact Cw3Core.viewAll_eq_map fun _ hx =>
+    statusTotal_of_mem hn hv (mem_sortedEntries.mp (List.mem_reverse.mp hx))
+
+/-- Completeness of `ListVotes` of one proposal (state level, raw cursor). -/
+theorem core_listVotes_loop {c : Cw3Core.Core} (hw : Cw3Core.WF c) (id : Nat) (limit : Option Nat)
+    (hl : limit ≠ some 0) {fuel : Nat} (hf : (Cw3Core.ballotsOf c id).length + 1 ≤ fuel) :
+    fetchLoop (fun cur => Cw3Core.listVotes c id cur limit) (·.1) none fuel
+      = sortedEntries strLt (Cw3Core.ballotsOf c id) :=
+  listing_complete_id strictTotal_strLt (hw.nodup id) hl (fun _ => rfl) hf
+
+/-! ## cw3-fixed-multisig: `ListProposals`, `ReverseProposals`, `ListVotes`, `ListVoters` -/
+
+/-- In a reachable world of cw3-fixed `current_status` never fails: the tally of every proposal is bounded by
+its total weight, which is the configured `u64` total, and the threshold passed `validate` (C04 `no_panic`). -/
+theorem fixed_status_total {fuel : Nat} {w : Cw3Fixed.World} (hr : Cw3Fixed.Reachable fuel w) (blk : Block) :
+    StatusTotal w.ms.core blk := by
+  intro id p hp
+  have hi := Cw3Fixed.reachable_inv hr
+  have hc := hi.propCfg id p hp
+  have prem : C04.Premise p.tally :=
+    ⟨by simpa [Cw3Core.Proposal.tally, C04.cast] using hi.tally_le hp,
+     by show p.totalWeight ≤ U64_MAX; rw [hc.1]; exact hi.totalU64,
+     by show p.threshold.validate p.totalWeight = .ok (); rw [hc.2.1, hc.1]; exact hi.thrValid⟩
+  exact (C04.no_panic prem blk).2.2
+
+/-- (a) `ListProposals`: page bound, and the exact rejection condition (a listed proposal without status). -/
+theorem fixed_listProposals_page_len (s : Cw3Fixed.State) (blk : Block) (after limit : Option Nat) :
+    (okItems (Cw3Fixed.listProposals s blk after limit)).length ≤ effLimit limit ∧
+    ((Cw3Fixed.listProposals s blk after limit).isOk = true ↔
+      ∀ x ∈ page natLt (sortedEntries natLt s.core.proposals) after limit, ∃ st, x.2.currentStatus blk = .ok st) :=
+  core_listProposals_page_len s.core blk after limit
+
+/-- (a) `ReverseProposals`: page bound and rejection condition. -/
+theorem fixed_reverseProposals_page_len (s : Cw3Fixed.State) (blk : Block) (before limit : Option Nat) :
+    (okItems (Cw3Fixed.reverseProposals s blk before limit)).length ≤ effLimit limit ∧
+    ((Cw3Fixed.reverseProposals s blk before limit).isOk = true ↔
+      ∀ x ∈ Cw3Core.pageDesc natLt (sortedEntries natLt s.core.proposals) before limit,
+        ∃ st, x.2.currentStatus blk = .ok st) :=
+  core_reverseProposals_page_len s.core blk before limit
+
+/-- In a reachable world neither proposal listing ever fails, for any cursor, limit and query block. -/
+theorem fixed_proposal_listings_total {fuel : Nat} {w : Cw3Fixed.World} (hr : Cw3Fixed.Reachable fuel w) (blk : Block)
+    (cur limit : Option Nat) :
+    (Cw3Fixed.listProposals w.ms blk cur limit).isOk = true ∧ (Cw3Fixed.reverseProposals w.ms blk cur limit).isOk = true := by
+  have hn := Cw3Fixed.reachable_nodup hr
+  have hv := fixed_status_total hr blk
+  constructor
+  · show (Cw3Core.listProposals w.ms.core blk cur limit).isOk = true
+    rw [core_listProposals_eq hn hv]; rfl
+  · show (Cw3Core.reverseProposals w.ms.core blk cur limit).isOk = true
+    rw [core_reverseProposals_eq hn hv]; rfl
+
+/-- (b) `ListProposals` of cw3-fixed is complete in every reachable world, at every query block: the loop returns
+the views of all proposals, ascending by id, each once. -/
+theorem fixed_listProposals_complete {fuel : Nat} {w : Cw3Fixed.World} (hr : Cw3Fixed.Reachable fuel w) (blk : Block)
+    (limit : Option Nat) (hl : limit ≠ some 0) {n : Nat} (hf : w.ms.core.proposals.length + 1 ≤ n) :
+    Cw3Core.viewAll blk (sortedEntries natLt w.ms.core.proposals)
+      = .ok (fetchLoop (fun cur => okItems (Cw3Fixed.listProposals w.ms blk cur limit)) (·.id) none n) :=
+  core_listProposals_loop (Cw3Fixed.reachable_nodup hr) (fixed_status_total hr blk) limit hl hf
+
+/-- (b) `ReverseProposals` of cw3-fixed is complete in every reachable world: all proposals, descending by id. -/
+theorem fixed_reverseProposals_complete {fuel : Nat} {w : Cw3Fixed.World} (hr : Cw3Fixed.Reachable fuel w) (blk : Block)
+    (limit : Option Nat) (hl : limit ≠ some 0) {n : Nat} (hf : w.ms.core.proposals.length + 1 ≤ n) :
+    Cw3Core.viewAll blk (sortedEntries natLt w.ms.core.proposals).reverse
+      = .ok (fetchLoop (fun cur => okItems (Cw3Fixed.reverseProposals w.ms blk cur limit)) (·.id) none n) :=
+  core_reverseProposals_loop (Cw3Fixed.reachable_nodup hr) (fixed_status_total hr blk) limit hl hf
+
+/-- (a) `ListVotes`: page bound; total (raw cursor, unknown proposal ids list nothing). -/
+theorem fixed_listVotes_page_len (s : Cw3Fixed.State) (id : Nat) (after : Option String) (limit : Option Nat) :
+    (Cw3Fixed.listVotes s id after limit).length ≤ effLimit limit :=
+  page_length_le _ _ _ _
+
+/-- (b) `ListVotes` of cw3-fixed is complete in every reachable world, for every proposal id. -/
+theorem fixed_listVotes_complete {fuel : Nat} {w : Cw3Fixed.World} (hr : Cw3Fixed.Reachable fuel w) (id : Nat)
+    (limit : Option Nat) (hl : limit ≠ some 0) {n : Nat} (hf : (Cw3Core.ballotsOf w.ms.core id).length + 1 ≤ n) :
+    fetchLoop (fun cur => Cw3Fixed.listVotes w.ms id cur limit) (·.1) none n
+      = sortedEntries strLt (Cw3Core.ballotsOf w.ms.core id) :=
+  core_listVotes_loop (Cw3Fixed.reachable_inv hr).wf id limit hl hf
+
+/-- (a) `ListVoters`: page bound; total (raw cursor). -/
+theorem fixed_listVoters_page_len (s : Cw3Fixed.State) (after : Option String) (limit : Option Nat) :
+    (Cw3Fixed.listVoters s after limit).length ≤ effLimit limit :=
+  page_length_le _ _ _ _
+
+theorem fixed_listVoters_loop {s : Cw3Fixed.State} (hs : AMap.NodupKeys s.voters) (limit : Option Nat)
+    (hl : limit ≠ some 0) {n : Nat} (hf : s.voters.length + 1 ≤ n) :
+    fetchLoop (fun cur => Cw3Fixed.listVoters s cur limit) (·.1) none n = sortedEntries strLt s.voters :=
+  listing_complete_id strictTotal_strLt hs hl (fun _ => rfl) hf
+
+/-- (b) `ListVoters` of cw3-fixed is complete in every reachable world. -/
+theorem fixed_listVoters_complete {fuel : Nat} {w : Cw3Fixed.World} (hr : Cw3Fixed.Reachable fuel w)
+    (limit : Option Nat) (hl : limit ≠ some 0) {n : Nat} (hf : w.ms.voters.length + 1 ≤ n) :
+    fetchLoop (fun cur => Cw3Fixed.listVoters w.ms cur limit) (·.1) none n = sortedEntries strLt w.ms.voters :=
+  fixed_listVoters_loop (Cw3Fixed.reachable_inv hr).votersNodup limit hl hf
+
 end CwPlus.Props.C20Listings
